@@ -183,9 +183,8 @@ def req_execute_write(flags):
 
 
 def pattern(length: int, salt: int) -> bytes:
-    """Deterministic bytes, different for different salts, never containing a run
-    equal to another salt's first 4 bytes (salt in the high nibble of every byte
-    position modulo 4)."""
+    """Deterministic bytes: an arithmetic progression (step 7) starting at a
+    salt-dependent value, so values of different salts differ in every byte."""
     return bytes(((salt * 29 + 7 * i + (i >> 8) * 3 + 1) & 0xFF) for i in range(length))
 
 
